@@ -28,6 +28,11 @@ def gen_align(tier, rng):
         for shp in shapes:
             pool = rng.choice([("q0", "q1", "q2"), ("q1", "q3"), ("q2", "q10", "q11"), ("q0",)])
             o = rand_operand(rng, shape=shp, names_pool=pool, pool=[-1, 0, 0, 1, 2]) if rng.random() < 0.85 else {"num": 3}
+            if rng.random() < 0.1 and shp:
+                # a plain array in non-native byte order (the same scalar type as the native dtype, another memory layout)
+                from .gen import nested
+                dt = rng.choice([">i8", ">f8", ">u4", ">i4"])
+                o = {"array": nested(rng, tuple(shp), [0, 1, 2, 258] if dt == ">u4" else [-1, 0, 1, 2, 258]), "dtype": dt}
             ops.append(o)
         yield {"fn": fn, "ops": ops, "dtype_mix": rng.random() < 0.3}
 
@@ -35,7 +40,7 @@ def gen_align(tier, rng):
 @check("C04", "align.representation_only", gen_align,
        functions=("numpoly.align_polynomials", "numpoly.align_shape", "numpoly.align_indeterminants", "numpoly.align_exponents"),
        note="bounded: arity 1-4, operands with <=3 terms over name pools {q0,q1,q2},{q1,q3},{q2,q10,q11},{q0}, shapes 0-2-d "
-            "incl. broadcasting, plain numbers/arrays mixed in")
+            "incl. broadcasting, plain numbers/arrays (also in non-native byte order) mixed in")
 def align_repr(inp):
     import numpoly
     install_poison()
@@ -67,7 +72,7 @@ def align_repr(inp):
         if got.shape != want.shape or not same(got, numpy.array(want, dtype=object).reshape(want.shape) if want.shape else want):
             return f"result {k} denotes {describe(got)}, argument denotes {describe(want)}"
         xd = getattr(x, "dtype", None)
-        if xd is not None and isinstance(x, (numpy.ndarray,)) and r.dtype != xd:
+        if xd is not None and isinstance(x, (numpy.ndarray,)) and r.dtype != xd and r.dtype != xd.newbyteorder("="):
             return f"result {k}: dtype {r.dtype}, argument dtype {xd}"
     if inp["fn"] in ("align_polynomials", "align_indeterminants", "align_exponents"):
         names = {tuple(r.names) for r in res}
